@@ -1209,6 +1209,14 @@ def r19b(ctx, tier="quick"):
                   key=f"{m} uncached")
     de = DerivEval(ctx)
     n_paths = n_prod = 0
+    if tier == "quick":
+        # every cache of the derivation layer is covered by a scenario (a new cached method is a new sharing site)
+        covered = {ref for ref, _ in _scenarios("quick")}
+        for mod, cls in ((m.split(":")[0], m.split(":")[1]) for m in (GS, IS, SM, PR, OP)):
+            for q, f in ctx.model.module(mod).functions.items():
+                if q.startswith(cls + ".") and q.count(".") == 1 and "cached_member" in common.decorators(f) and f"{mod}:{q}" not in covered:
+                    raise AnalysisError(f"R19b: the cached derivation method {mod}:{q} is not evaluated by any scenario "
+                                        "(a new cache is a new place where contracted indices can be shared)")
     for ref, args in _scenarios(tier):
         fn = ctx.model.fn(ref)
         cls, meth = ref.rsplit(".", 1)
@@ -1985,6 +1993,102 @@ def r19i(ctx):
               f"{wrong_hit[0][2] if wrong_hit else ''}", key="property sound")
     ctx.check(rule, fn, not missed, "cached_property: evaluated once per instance", f"cached_property evaluates {missed[:2]} again",
               key="property complete")
+
+
+# ====================================================================== R19j
+# rename_tensors evaluated on a model expression: the tensors of an expression written with default names end up with the
+# names map_default_name assigns to them - all at once, for configurations that rename, swap and chain default names.
+
+def _rename_model(names):
+    """expression model: a list of tensor names; rename_tensor(old, new) renames every tensor called old; atoms() lists
+    the names present at the time of the call (as a set: both iteration orders are evaluated by the caller)"""
+    state = {"names": list(names)}
+
+    def make(order):
+        expr = Obj("expr_container:Expr", "expr")
+        expr.attrs["_classes"] = {"Expr", "Container"}
+
+        def rename_tensor(sx, a, kw):
+            a = [x for x in a if not isinstance(x, Obj)]
+            old, new = (a + [kw.get("current"), kw.get("new")])[:2] if len(a) < 2 else a[:2]
+            if not isinstance(old, str) or not isinstance(new, str):
+                raise AnalysisError(f"R19j: rename_tensor called with {old!r}, {new!r}")
+            state["names"] = [new if n == old else n for n in state["names"]]
+            return expr
+
+        def atoms(sx, a, kw):
+            out = []
+            for n in sorted(set(state["names"]), reverse=(order == 1)):
+                s = Obj(None, f"Symbol({n})")
+                s.attrs["name"] = n
+                out.append(s)
+            return out
+        sympy = Obj(None, "expr.sympy")
+        sympy.attrs["atoms"] = atoms
+        expr.attrs.update(sympy=sympy, rename_tensor=rename_tensor)
+        return expr
+    return state, make
+
+
+def r19j(ctx):
+    rule = "R19j"
+    fn = ctx.model.fn("tensor_names:TensorNames.rename_tensors")
+    defaults = _defaults(ctx)
+    t, p = defaults["gs_amplitude"], defaults["gs_density"]
+    present = sorted(set(defaults.values())) + [t + "1", t + "2cc", t + "cc", p + "2", "Zero", "t2eri_1"]
+    configs = {
+        "defaults": {},
+        "one name changed": {"eri": "W"},
+        "two defaults swapped": {"eri": defaults["fock"], "fock": defaults["eri"]},
+        "chain of renames": {"eri": defaults["fock"], "fock": "g"},
+        "amplitudes renamed": {"gs_amplitude": "T"},
+        "amplitudes and densities swapped": {"gs_amplitude": p, "gs_density": t},
+        "name taken from a later field": {"coulomb": defaults["sym_orb_denom"], "sym_orb_denom": "Q"},
+    }
+
+    def fields_hook(sx, a, kw):
+        out = []
+        for nm, d in defaults.items():
+            f = Obj(None, f"field:{nm}")
+            f.attrs.update(name=nm, default=d)
+            out.append(f)
+        return out
+    for what, conf in configs.items():
+        cfg = dict(defaults)
+        cfg.update(conf)
+
+        def expected(n):
+            for base, field in ((t, "gs_amplitude"), (p, "gs_density")):
+                ext = n[len(base):]
+                core = ext.replace("c", "") if field == "gs_amplitude" else ext
+                if n.startswith(base) and (core == "" or core.isdigit()) and (field == "gs_amplitude" or ext == "" or ext.isdigit()):
+                    if n == base or ext:
+                        return cfg[field] + ext
+            for field, d in defaults.items():
+                if d == n:
+                    return cfg[field]
+            return n
+        want = [expected(n) for n in present]
+        for order in (0, 1):
+            state, make = _rename_model(present)
+            sx = Symex(ctx.model, inline=lambda q: q.startswith("tensor_names:"), hooks={"fields": fields_hook, "defaults": lambda s_, a_, k_: dict(defaults), "TensorNames.defaults": lambda s_, a_, k_: dict(defaults)}, what="rename_tensors",
+                       max_paths=64)
+
+            def args():
+                me = Obj("tensor_names:TensorNames", "self")
+                me.attrs.update(cfg)
+                return dict(self=me, expr=make(order))
+            outs = sx.run(fn, args)
+            if len(outs) != 1 or outs[0].kind != "return":
+                ctx.bad(rule, fn, f"rename_tensors ({what}) does not return on one path: {outs}", key=f"shape {what}")
+                break
+            got = state["names"]
+            wrong = [(a, b, c) for a, b, c in zip(present, got, want) if b != c]
+            ctx.check(rule, fn, not wrong, f"{what}: every default name is mapped to its configured name at once",
+                      f"configuration `{conf}`: the tensor {wrong[0][0] if wrong else ''} ends up as {wrong[0][1] if wrong else ''}, expected "
+                      f"{wrong[0][2] if wrong else ''} ({len(wrong)} of {len(present)} names wrong): renames are chained instead of applied "
+                      "simultaneously, the result differs from the default-name result by more than the renaming",
+                      key=f"simultaneous {what} {order}")
 
 
 # ====================================================================== R19f
